@@ -24,7 +24,8 @@ DayClauses(e) ==
     plum    |-> e.plum = PlumRain(e.j, mz, xs),
     pentad  |-> (e.ti \in 0..23 /\ e.tj <= e.j) => e.ph = Pentad(e.j, e.ti, e.tj),
     command |-> (e.ji \in 1..23 /\ e.ji % 2 = 1 /\ e.jj <= e.j) => e.hs = <<cmd[1], TypeOf(e.ji, cmd[2]), cmd[3]>>,
-    governed |-> e.ti \in 0..23 /\ e.ji \in 0..23
+    (* the term the day is assigned is the latest that has started (its own day <= the day < the next term's day) *)
+    governed |-> e.ti \in 0..23 /\ e.ji \in 0..23 /\ e.tj <= e.j /\ (e.tn < 0 \/ e.j < e.tn)
   ]
 
 Clauses(i) ==
